@@ -19,7 +19,7 @@ func main() { harness.Main("C14", "exploration", run) }
 
 func run(e *harness.Env) {
 	e.Rule = "full product per sub-space: (export) chunk collections [empty; 1 chunk with one string slot of {id,text,doc title,section title,path element,parent id,child id,element type} ranging over the string alphabet; " +
-		"all tuples of <=2 (quick) / <=3 (thorough) chunks whose string slots all carry alphabet string s_i, metadata profile full/min/partial; all (id,text) pairs] x " +
+		"all tuples of <=2 chunks over the 30-string alphabet (thorough: also all triples over the 16 core strings) whose string slots all carry string s_i, metadata profile full/min/partial by position; all (id,text) pairs] x " +
 		"{JSONL,JSON,CSV,TSV} x CSV delimiter{comma,semicolon,pipe,tab,non-ASCII} x Flatten x MetadataFields{nil,[],VectorDB list,custom with unknown name} x IncludeMetadata x IncludeText x header x pretty x column names x IncludeEmbeddings, plus ToJSON/ToJSONL/ToCSV/ToTSV; " +
 		"(batch) collections of 0..3 chunks x batch size {1,2,n,n+1,0,-1} x 6 configurations; (stream) WriteChunk/Close per format; " +
 		"(vdb) PrepareForVectorDB/Pinecone/Chroma/Weaviate x embedding layouts {full,nil,short,long,holes} x class names; " +
@@ -31,6 +31,7 @@ func run(e *harness.Env) {
 		"a value that is absent from a record stands for the zero value (omitempty reading) or for a field the configuration does not select",
 		"TSV is judged as the quoted dialect tabula writes (encoding/csv with Comma=TAB), not as IANA text/tab-separated-values",
 	}
+	selfTest()
 	exportSpace(e)
 	batchSpace(e)
 	streamSpace(e)
@@ -160,7 +161,12 @@ func exportCollections(e *harness.Env) []coll {
 	if e.Thorough() {
 		maxN = 3
 	}
+	full := al
 	for n := 1; n <= maxN; n++ {
+		al := full
+		if n == 3 {
+			al = coreAlpha // triples over the 16 DESIGN.md strings, singles and pairs over all 30
+		}
 		total := 1
 		for i := 0; i < n; i++ {
 			total *= len(al)
